@@ -21,6 +21,27 @@ add("C20", "exploration",
     "Trusts the correctly-rounded decimal parsers of rustc and std, and the constant->quantity name mapping documented in DESIGN.md.",
     "DESIGN.md 4/C20")
 
+add("C11", "exploration",
+    "property-based differential testing (proptest) against naive O(n^2) coefficient algebra: all operator forms, scalar/linear/FFT product paths, dft/idft round trip and values at roots of unity",
+    "Generated real and complex polynomial pairs (degree 0..40 quick / 0..128 thorough, structured shapes and power-of-two boundary lengths) are pushed through every owned/borrowed/assigning operator form and compared coefficient-wise with naive harness algebra under a stated rounding allowance ((16+N) eps |a|_1|b|_1 + 1.5 tol for FFT size N; >=10x measured margin); degree, commutativity, pointwise product and transform identities are checked on the same cases.",
+    "Exploration only. Trusts naive harness arithmetic; FFT noise allowance grows linearly with transform size (calibrated, see DESIGN C11).",
+    "DESIGN.md 4/C11")
+add("C12", "exploration",
+    "property-based testing (proptest): reconstruction dividend = q*d + r in naive harness arithmetic with a backward-error allowance, degree of remainder, forward-error (a-posteriori recurrence) allowance for exact multiples, error on zero divisor",
+    "Generated dividends/divisors (real and complex, exact multiples, higher-degree and constant divisors, zero polynomial) with the Euclidean identity, remainder degree and remainder-vanishing oracles.",
+    "Exploration only. For ill-conditioned divisors the exact-multiple remainder allowance grows with the a-posteriori amplification factor, so small defects there may be masked.",
+    "DESIGN.md 4/C12")
+add("C13", "exploration",
+    "model-based property testing (proptest): operation histories vec(op,0..40) interpreted against the implementation and a reference coefficient map compared after every step; evaluation/calculus identities against naive power-sum and term-wise oracles",
+    "Random edit/arithmetic histories (set/purge at, before and beyond the end, purge_leading, scalar and polynomial arithmetic, linear factors, derivative, antiderivative, slice round trip) are run in lock-step with a reference coefficient map; evaluation, derivative, antiderivative and definite-integral identities are checked on the same polynomials; no step may panic.",
+    "Exploration only. The reference map replicates single IEEE operations and is re-synchronised to the implementation after every accepted step (each step judged on its own).",
+    "DESIGN.md 4/C13")
+add("C18", "exploration",
+    "exhaustive enumeration (5 families x n=0..20 x 5 tolerances x real/complex) plus proptest-generated tolerances against exact i128-rational three-term recurrences",
+    "Every constructor output in the stated index range is compared coefficient-wise with exact rational coefficients (64 eps n |exact|_1; measured margin 400x), degree exactly n, plus normalisation/trigonometric/parity/leading-coefficient consequences. The finite (family, n, listed tolerance, field) space is complete.",
+    "Trusts the harness's checked-i128 rational arithmetic and the textbook recurrences (A&S 22.7).",
+    "DESIGN.md 4/C18")
+
 ALL = ["C%02d" % i for i in range(1, 21)]
 
 def main():
